@@ -122,4 +122,47 @@ def safe (syn kind : String) : Bool :=
   | some c => c.safe
   | none => false
 
+/-! ## the `Trusted<…>` accessor layer (rio/src/model.rs, iri/src/_wrap_macro.rs, api/src/term/language_tag.rs)
+
+What a caller gets when it reads a yielded term.  The accessor first `debug_assert!`s a validator — WHICH one is
+read from /repo (`Gen.ParserWiring.accessorValidators`, regenerated on every run), not assumed — then wraps the
+back-end string with `new_unchecked`, which validates in debug builds only; `LanguageTag::new_unchecked` is the
+exception: it `assert!`s in every build (`Gen.ParserWiring.langUnchecked`). -/
+
+/-- outcome of reading a term: a value the property's validator accepts, a value it rejects (handed out
+silently), or a panic -/
+inductive Access where
+  | ok | invalid | panic
+  deriving Repr, DecidableEq
+
+def Access.name : Access → String
+  | .ok => "ok" | .invalid => "invalid" | .panic => "panic"
+
+/-- the regex behind a validator name found in an accessor's assertion; an unknown name fails closed -/
+def validatorByName (n : String) : Option Re :=
+  if n == "IriRef" then some Gen.IRI_REF_REGEX
+  else if n == "Iri" then some Gen.IRI_REGEX
+  else if n == "BnodeId" then some Gen.BNODE_ID
+  else if n == "VarName" then some Gen.VARNAME
+  else if n == "LanguageTag" then some Gen.LANG_TAG
+  else none
+
+/-- which accessor reads a token of the class -/
+def Cls.accessor : Cls → String
+  | .bnode | .nodeid | .jsonldPred => "bnode_id"
+  | .lang => "language_tag"
+  | .var => "variable"
+  | .iriGtrig | .iriRef | .iriAbs | .pname | .xmlns => "iri"
+  | .dt | .pnameD | .pnameDt => "datatype"
+
+/-- reading the string `out` handed over for class `c`, in a debug (`debug = true`) or release build -/
+def access (debug : Bool) (syn : String) (c : Cls) (out : List Nat) : Access :=
+  match (Gen.ParserWiring.accessorValidators.lookup c.accessor).bind validatorByName with
+  | none => .panic
+  | some v =>
+    let assertsAlways := c.accessor == "language_tag" && Gen.ParserWiring.langUnchecked == "assert"
+    if (debug || assertsAlways) && !matchB v out then .panic
+    else if matchB (specOf syn c).validator out then .ok
+    else .invalid
+
 end SophiaModel.ParserContract
